@@ -348,16 +348,31 @@ impl DateFilter for ds::MonthdayRange {
                 let start_month: u32 = *range.start() as _;
                 let end_month: u32 = *range.end() as _;
 
-                let start = NaiveDate::from_ymd_opt(year, *range.start() as _, 1)?;
-                let end = {
-                    if start_month <= end_month && end_month < 12 {
-                        NaiveDate::from_ymd_opt(year, end_month + 1, 1)?
+                // First and last day of a month of this year
+                let first_day = |month: u32| NaiveDate::from_ymd_opt(year, month, 1);
+
+                let last_day = |month: u32| {
+                    if month < 12 {
+                        NaiveDate::from_ymd_opt(year, month + 1, 1)?.pred_opt()
                     } else {
-                        NaiveDate::from_ymd_opt(year + 1, end_month % 12 + 1, 1)?
+                        NaiveDate::from_ymd_opt(year, 12, 31)
                     }
                 };
 
-                Some(next_change_from_bounds(date, [start], [end]))
+                if start_month <= end_month {
+                    Some(next_change_from_bounds(
+                        date,
+                        [first_day(start_month)?],
+                        [last_day(end_month)?],
+                    ))
+                } else {
+                    // A wrapping range selects both ends of this year, as `filter` does
+                    Some(next_change_from_bounds(
+                        date,
+                        [first_day(1)?, first_day(start_month)?],
+                        [last_day(end_month)?, last_day(12)?],
+                    ))
+                }
             }
             ds::MonthdayRange::Date {
                 start:
